@@ -124,6 +124,9 @@ func (C07) Generate(r *rand.Rand, tier string, idx int) *drv.Scenario {
 					name = "we ird/na:me"
 				}
 			}
+			if !bad && brCtr > 1 && r.IntN(8) == 0 {
+				name = fmt.Sprintf("br%d", 1+r.IntN(brCtr-1)) // re-request an existing branch name (must be refused)
+			}
 			uk := uuidKind()
 			idx := d.NextIdx()
 			if p >= 0 && d.Nodes[p].Locked && name != "" && name != "master" && !d.BranchUsed(d.Nodes[p].Repo, name) && (uk == "fresh" || uk == "none" || uk == "empty") {
@@ -197,9 +200,9 @@ func (C07) Generate(r *rand.Rand, tier string, idx int) *drv.Scenario {
 		case x < 90: // instance ops
 			v := pickV("any")
 			steps = append(steps, drv.Op{Op: pick(r, []string{"c7inst", "c7rename", "c7delinst"}), V: v, I: pick(r, []string{"kv", "kv2", "log", "x y"}), K2: pick(r, []string{"kv", "kv3", "kv2"})})
-		case x < 93:
+		case x < 95:
 			steps = append(steps, drv.Op{Op: "restart", Mode: pick(r, []string{"clean", "kill"})})
-		case x < 94 && nrepo > 1:
+		case x < 96 && nrepo > 1:
 			steps = append(steps, drv.Op{Op: "c7delrepo", R: 1 + r.IntN(nrepo-1)})
 		default: // a write that puts a marker on an open node (used to observe uuid:branch addressing)
 			v := pickV("open")
